@@ -41,7 +41,7 @@ func zzBMAgree(b *BiMap[int16, int16], m *zzBMModel, pk, pv int16) {
 	zzAssert("both-directions-same-size", len(b.forward) == len(b.backward))
 }
 
-//verif:harness property=C51 mode=bv unwind=40 lens=1..3 thorough_lens=1..4 steps=20000000
+//verif:harness property=C51 mode=bv unwind=40 lens=1..3 thorough_lens=1..3 steps=20000000
 func ZZ_C51_BiMap_LLEN() {
 	b := NewBiMap[int16, int16]()
 	m := &zzBMModel{}
